@@ -634,6 +634,68 @@ def fam_host_each(arg):
     return acc.result()
 
 
+CROSS_VALUES = ('script-function', 'partial', 'partial-of-partial', 'host-wrapped')
+
+
+def check_crossrun(case, acc):
+    """A function value created in one run and called in ANOTHER run with different globals reads and writes the
+    globals of the run that CALLS it (script functions do not capture an environment)."""
+    bs = load_impl()
+    kind = CROSS_VALUES[case['v']]
+    src1 = "function rd(k):\n    systemGlobalSet('seen', gx)\n    wx = 5\n    return 'gx=' + gx + ' k=' + k\nendfunction\ngx = 'run1'\n"
+    if kind == 'script-function':
+        src1 += "fv = rd\n"
+    elif kind == 'partial':
+        src1 += "fv = systemPartial(rd, 'p')\n"
+    elif kind == 'partial-of-partial':
+        src1 += "fv = systemPartial(systemPartial(rd, 'p'), 'q')\n"
+    else:
+        src1 += "function wrap(k):\n    return rd(k)\nendfunction\nfv = wrap\n"
+    g1 = {}
+    g2 = {}
+    acc.evals += 2
+    acc.states += 1
+    acc.transitions += 2
+    acc.traces += 1
+    c2 = dict(case, kind=kind)
+    try:
+        bs.execute_script(bs.parse_script(src1), {'globals': g1})
+        g2['fv'] = g1['fv']
+        g2['rd'] = g1['rd']
+        how = case['how']
+        if how == 'second-script':
+            res = bs.execute_script(bs.parse_script("gx = 'run2'\nreturn fv('a')\n"), {'globals': g2})
+        elif how == 'expression':
+            g2['gx'] = 'run2'
+            bs.execute_script({'statements': []}, {'globals': g2})
+            res = bs.evaluate_expression(bs.parse_expression("fv('a')"), {'globals': g2, 'statementCount': 0}, None, True)
+        else:
+            g2['gx'] = 'run2'
+            bs.execute_script({'statements': []}, {'globals': g2})
+            res = g2['fv'](['a'], {'globals': g2, 'statementCount': 0})
+    except Exception as exc:  # pylint: disable=broad-exception-caught
+        acc.violation(c2, 'completes', (type(exc).__name__, str(exc)[:200]), 'calling a function value from an earlier run failed')
+        return
+    want = "gx=run2 k=p" if kind in ('partial', 'partial-of-partial') else "gx=run2 k=a"
+    if res != want:
+        acc.violation(c2, want, canon(res), 'the function read the globals of the run that created it, not of the run that calls it')
+    if g2.get('seen') != 'run2' or g1.get('seen') is not None:
+        acc.violation(c2, {'run2.seen': 'run2', 'run1.seen': None}, {'run2.seen': canon(g2.get('seen')), 'run1.seen': canon(g1.get('seen'))}, 'systemGlobalSet wrote to the wrong run')
+    if 'wx' in g2 or 'wx' in g1:
+        acc.violation(c2, 'wx stays local', sorted(k for k in ('wx',) if k in g1 or k in g2), 'a local of the called function leaked into globals')
+    acc.nontrivial += 1
+    acc.outcome((kind, case['how'], res))
+
+
+def fam_crossrun(arg):
+    acc = Acc('crossrun')
+    for case in arg:
+        acc.cases += 1
+        check_crossrun(case, acc)
+    acc.sample(dict(arg[0], kind=CROSS_VALUES[arg[0]['v']]))
+    return acc.result()
+
+
 def fam_host(arg):
     acc = Acc('host')
     for case in arg:
@@ -654,6 +716,7 @@ def families(tier):
         seeds += [[i] for i in range(len(evs))]
     from bare_script.library import SCRIPT_FUNCTIONS  # pylint: disable=import-outside-toplevel,import-error
     each = [{'i': i, 'kind': k} for k in (0, 1) for i in range(len(SCRIPT_FUNCTIONS))]
+    cross = [{'v': v, 'how': h} for v in range(len(CROSS_VALUES)) for h in ('second-script', 'expression', 'host-call')]
     hlen = 3 if tier == 'quick' else 4
     hshards = [(length, [f]) for length in range(1, hlen + 1) for f in range(len(evs))]
     hosts = [{'mask': m, 'p': p, 'kind': k} for k in (0, 1) for m in range(1 << len(HOST_NAMES)) for p in range(len(HOST_PROGRAMS)) if k == 0 or m]
@@ -661,12 +724,13 @@ def families(tier):
         Family('convention', fam_convention, split(cc, 16), 'parameters 0..3 x "..." x arguments 0..5 x 9 call paths (+ header spellings)', expected=len(cc)),
         Family('scoping', fam_scoping, [[s] for s in seeds], f'BFS to fixpoint over {len(evs)} events from {len(seeds)} seed states (each shard a full search)', expected=len(seeds)),
         Family('histories', fam_histories, hshards, f'every event history of length <= {hlen} over the {len(evs)} events from the empty state, stepwise compared, without state merging', expected=sum(len(evs) ** k for k in range(1, hlen + 1))),
+        Family('crossrun', fam_crossrun, [cross], 'a function value (script function, partial, nested partial, wrapper) created in one run and called in a second run with different globals: from a script, from an expression, by the host', expected=len(cross)),
         Family('host_each', fam_host_each, split(each, 8), 'the host supplies exactly one library name - every library name in turn, bound to a host function and bound to null', expected=len(each)),
         Family('host', fam_host, split(hosts, 8), 'every subset of host-supplied names {arrayLength, mathAbs, abs, x} (bound to tagged host objects, and bound to null) x 8 programs', expected=len(hosts)),
     ]
 
 
-_CHECKS = {'host_each': check_host_each, 'convention': check_convention, 'scoping': check_scoping, 'host': check_host, 'histories': check_history}
+_CHECKS = {'crossrun': check_crossrun, 'host_each': check_host_each, 'convention': check_convention, 'scoping': check_scoping, 'host': check_host, 'histories': check_history}
 
 
 def replay(family, case):
